@@ -3,7 +3,7 @@
  * args: m n pattern colperm permidx symmode panel relax maxsuper rowblk colblk fill umode flags
  *   colperm: 0 NATURAL 1 MMD_ATA 2 MMD_AT_PLUS_A 3 COLAMD 4 MY_PERMC(permidx)
  *   umode  : 0 u=1.0  1 u symbolic in [0,1]  2 u=0.5  3 u=0.0 (documented as legal "diagonal pivoting")
- *   flags  : bit0 assume strict column diagonal dominance; bit1 pattern is structurally singular (info=0 forbidden); bit2 (with lwork > 0) an unrelated problem is factored in the same workspace first
+ *   flags  : bit0 assume strict column diagonal dominance; bit1 pattern is structurally singular (info=0 forbidden); bit2 (with lwork > 0) an unrelated problem is factored in the same workspace first; bit3 rows stored in scrambled order (pivots far from the diagonal, pivot rows of neighbouring columns not adjacent)
  *   symcols: bitmask of symbolic columns (default all); other columns hold fixed generic concrete values
  *   lwork  : 0 library allocation; > 0 caller workspace of exactly lwork bytes inside a guarded arena (C08); woff: 0 / 4 byte misalignment
  *   failat : k > 0: the k-th allocation request made during ?gstrf fails (C08 library-allocation half) */
@@ -17,6 +17,7 @@ int main(int argc, char **argv) {
 
   unsigned symcols = (unsigned)h_arg(argc, argv, 14, -1); long lwork = h_arg(argc, argv, 15, 0), woff = h_arg(argc, argv, 16, 0), failat = h_arg(argc, argv, 17, 0);
   void *work = lwork > 0 ? slusym_workspace(lwork, woff) : NULL;
+  if (flags & 8) h_rowscramble = 1;
   symmat_t S; symmat_build_cols(&S, m, n, pat, "a", symcols);
   if (flags & 1) symmat_assume_coldom(&S);
   real_t u = 1;
